@@ -15,13 +15,16 @@ const DIRS: &[&str] = &["", "asc", "desc", "ASC", "Desc", "dEsC", "  "];
 const BAD_DIRS: &[&str] = &[" asc", "up", "ascending", "asc ", "a", "descc"];
 // the last two define a `value` group that does not take part in every match (alternation / optional): whole match then
 const SORT_PATS: &[&str] = &[r"x=(?P<value>\d+)", r"\w+", r"(?P<value>[a-z]+)", r"^\S+", r"\d+(\.\d+)?",
-    r"x=(?P<value>\d+)|^[a-z0-9.]+", r"^\s*(?:x=(?P<value>\d+))?\S*"];
+    r"x=(?P<value>\d+)|^[a-z0-9.]+", r"^\s*(?:x=(?P<value>\d+))?\S*",
+    // the short spelling of a named group, and groups that are NOT called `value` (whole match then)
+    r"x=(?<value>\d+)", r"(?<value>[a-z]+)\d*", r"x=(?P<val>\d+)", r"x=(?P<value2>\d+) ?(?P<valu>\w*)"];
 const BAD_PATS: &[&str] = &["(", "[a-", "(?P<value>", "*a"];
 const FORMATS: &[&str] = &["numeric", "Numeric", "NUMERIC", "lexicographic", "Lexicographic", "", " numeric "];
 const BAD_FORMATS: &[&str] = &["num", "numeric1", "alpha", "numericc"];
 const LINE_PATS: &[&str] = &[r"^[a-z]+$", r"\d", r"^x=\d+", r"^\S+$", r"b", r"^$", r"^\s", r"a|b"];
 const UNIQ_PATS: &[&str] = &["", "", r"x=(?P<value>\d+)", r"^\w", r"(?P<value>[a-z]+)", r"\d+",
-    r"x=(?P<value>\d+)|^[a-z0-9.]+", r"^\s*(?:x=(?P<value>\d+))?\S*"];
+    r"x=(?P<value>\d+)|^[a-z0-9.]+", r"^\s*(?:x=(?P<value>\d+))?\S*",
+    r"x=(?<value>\d+)", r"(?<value>[a-z]+)\d*", r"x=(?P<val>\d+)", r"x=(?P<value2>\d+) ?(?P<valu>\w*)"];
 const OPS: &[&str] = &["<", "<=", "==", ">=", ">"];
 const BAD_COUNTS: &[&str] = &["", " ", "5", "=5", "=<5", "<= five", "<=", "< -1", "<18446744073709551616", "== 5 6", "!=3", "<=5.0", "≤5"];
 const SEVERITIES: &[&str] = &["error", "warning", "info", "hint", "Warning", "ERROR", "HiNt"];
